@@ -130,10 +130,10 @@ class SymMode(TorchDispatchMode):
             vals = _tolist(t)
             return obj_array(shape, [c.const(v, dt) for v in vals])
         st, mem, dt = ent
-        if dt != t.dtype:
-            raise Unsupported(f"dtype reinterpretation of symbolic storage {dt}->{t.dtype}")
         if t.numel() == 0:
             return np.empty(shape, dtype=object)
+        if dt != t.dtype:
+            return self._read_reinterpreted(t, ent)
         pos = _positions(t).reshape(-1)
         out = np.empty(pos.size, dtype=object)
         vals = None
@@ -147,6 +147,28 @@ class SymMode(TorchDispatchMode):
             out[i] = v
         return out.reshape(shape)
 
+    def _read_reinterpreted(self, t, ent):
+        """storage written as dtype S is read through a tensor of another dtype D (byte copies of storages, view(dtype))"""
+        st, mem, sdt = ent
+        c = self.ctx
+        D, S = t.dtype, sdt
+        ds, ss = t.element_size(), torch.empty(0, dtype=S).element_size()
+        pos = _positions(t).reshape(-1)
+        vals = _tolist(t)
+        out = np.empty(pos.size, dtype=object)
+        for i, p in enumerate(pos):
+            boff = int(p) * ds
+            if ds == ss:
+                src = mem[boff // ss]
+                out[i] = c.const(vals[i], D) if src is None else c.bitcast(src, D, vals[i])
+            elif ds < ss:
+                src = mem[boff // ss]
+                out[i] = c.const(vals[i], D) if src is None else c.byte_of(src, boff % ss, D, vals[i])
+            else:
+                parts = [mem[boff // ss + k] for k in range(ds // ss)]
+                out[i] = c.const(vals[i], D) if any(x is None for x in parts) else c.from_parts(parts, D, vals[i])
+        return out.reshape(tuple(t.shape))
+
     def write(self, t, arr, fresh=False):
         """store terms for the elements of plain tensor t (through its real strides)"""
         if t.numel() == 0:
@@ -157,7 +179,12 @@ class SymMode(TorchDispatchMode):
             ent = self._fresh_storage(t) if fresh else self._lift_storage(t)
         st, mem, dt = ent
         if dt != t.dtype:
-            raise Unsupported(f"dtype reinterpretation on write {dt}->{t.dtype}")
+            if all(x is None for x in mem) or fresh:
+                ent[2] = t.dtype
+                n = st.nbytes() // t.element_size()
+                ent[1] = mem = [None] * n
+            else:
+                raise Unsupported(f"dtype reinterpretation on write {dt}->{t.dtype}")
         if k in self.protected and not fresh:
             self.writes_to_protected.append(self.protected[k])
         pos = _positions(t).reshape(-1)
